@@ -1,0 +1,21 @@
+//go:build verif
+
+// Contracts for package examples/morpheusvm/actions (comment-only; read by /verif/cmd/govc).
+package actions
+
+//@ func (*TransferResult).Bytes
+//@   trusted
+//@   noframe
+
+// A successful transfer (C06) moves exactly Value from the actor's record to the recipient's and
+// touches no other record: the two balances change by -Value / +Value (a self-transfer leaves the
+// balance as it was, also when it is the full balance: delete-at-zero then re-create), so the sum
+// of all balance records is unchanged.  A failing transfer is rolled back by the caller (C03).
+//@ func (*Transfer).Execute props C06
+//@   requires storage.wfrec(gmap("vis", mu), str(storage.BalanceKey(actor))) && storage.wfrec(gmap("vis", mu), str(storage.BalanceKey(t.To)))
+//@   let A = str(storage.BalanceKey(actor))
+//@   let B = str(storage.BalanceKey(t.To))
+//@   ensures err == nil && A != B ==> storage.balAt(gmap("vis", mu), A) == old(storage.balAt(gmap("vis", mu), A)) - t.Value && storage.balAt(gmap("vis", mu), B) == old(storage.balAt(gmap("vis", mu), B)) + t.Value
+//@   ensures err == nil && A == B ==> storage.balAt(gmap("vis", mu), A) == old(storage.balAt(gmap("vis", mu), A))
+//@   ensures err == nil ==> t.Value > 0 && old(storage.balAt(gmap("vis", mu), A)) >= t.Value
+//@   ensures forall q string :: q != A && q != B ==> has(gmap("vis", mu), q) == old(has(gmap("vis", mu), q)) && gmap("vis", mu)[q] == old(gmap("vis", mu)[q])
